@@ -341,11 +341,57 @@ func syncLiteralArgs(in ssa.Instruction) []*ssa.Function {
 				}
 			}
 		}
+		// ... and called on every path through the helper (a helper that may skip the call does not make the literal's
+		// effects happen)
+		if onlyCalled {
+			isExit := func(x ssa.Instruction) bool { _, isRet := x.(*ssa.Return); return isRet && x.Parent() == h }
+			isCallOfP := func(x ssa.Instruction) bool {
+				c, isC := x.(*ssa.Call)
+				return isC && c.Call.Value == ssa.Value(p)
+			}
+			if pathAvoidingLocal(h, isExit, isCallOfP) {
+				onlyCalled = false
+			}
+		}
 		if onlyCalled {
 			out = append(out, lit)
 		}
 	}
 	return out
+}
+
+// pathAvoidingLocal: some path from fn's entry to an instruction satisfying isTarget avoids every instruction satisfying
+// isCut; plain CFG search over fn's own blocks (no virtual inlining; usable from inside the inlining primitives).
+func pathAvoidingLocal(fn *ssa.Function, isTarget, isCut func(ssa.Instruction) bool) bool {
+	if len(fn.Blocks) == 0 {
+		return false
+	}
+	seen := map[*ssa.BasicBlock]bool{fn.Blocks[0]: true}
+	work := []*ssa.BasicBlock{fn.Blocks[0]}
+	for len(work) > 0 {
+		b := work[len(work)-1]
+		work = work[:len(work)-1]
+		cut := false
+		for _, in := range b.Instrs {
+			if isCut(in) {
+				cut = true
+				break
+			}
+			if isTarget(in) {
+				return true
+			}
+		}
+		if cut {
+			continue
+		}
+		for _, sc := range b.Succs {
+			if !seen[sc] {
+				seen[sc] = true
+				work = append(work, sc)
+			}
+		}
+	}
+	return false
 }
 
 // inlinedCallee: in is the one and only call (synchronous) of a private helper: the helper whose body is treated as part of
